@@ -14,6 +14,10 @@ checks = {
  "C08": dict(cat="exploration", tech="hostile-input monitor in child processes: truncations, length-prefix rewrites, bit flips, shape edits, witness header/payload disagreement through ReadFrom -> Public() -> Verify; crash/abort of the child is the violation event",
    text="Runs the real decoders and verifiers of both back-ends on ~10^5 (quick) hostile byte strings and objects per run derived from genuine triples, one child process per (curve, back-end) with each input logged before use; observes panics (recovered or fatal), process death, and structurally inconsistent inputs that no stage reports. Held-on-what-was-observed only.",
    note="declared slice lengths above 2^16 excluded (allocation happens inside gnark-crypto before reading); keys are trusted inputs", ref="§3 C08"),
+
+ "C07": dict(cat="exploration", tech="reference-model monitor: run-time generated circuit struct types (reflect.StructOf shape trees + static catalogue) against an independent walk of the shape tree; witness vector, Public()/PublicOnly, binary and JSON round trips, in-circuit binding on both builders with swap-rejection",
+   text="~19k (quick) / ~400k (thorough) (shape, field) cases over 6/10 fields: the harness's own implementation of the documented ordering/visibility/naming rule predicts the witness vector, the public prefix, the byte layout and the input wire names; Define asserts each leaf equals its constant and a swapped assignment must be rejected. Observed executions only.",
+   note="trusted: math/big for expected values, the harness's shape-tree walker as statement of the documented rule; JSON checked inside the documented domain (no embedded/pointer/any fields)", ref="§3 C07"),
 }
 pending = {}
 for i in range(1,21):
